@@ -464,6 +464,13 @@ def run(ctx):
             feats[f] = feats.get(f, 0) + 1
         if k == "static-error" and any(f.startswith("corpus:") for f in (c.get("features") or [])):
             ctx.broken("corpus", "a hand-written corpus program is statically rejected: %s: %s" % (c["features"][0], c.get("static_error")))
+        if c.get("run") and c["run"].get("leaked"):
+            corp = [f[7:] for f in (c.get("features") or []) if f.startswith("corpus:")]
+            ctx.finding("iterator-left-open:" + (corp[0] if corp else "generated"),
+                        "after the run ended (%s) %d container(s) reachable from the globals are still locked by an iterator: a later use by the host fails spuriously"
+                        % (c["run"]["outcome"], c["run"]["leaked"]),
+                        {"src": c["src"], "opts": c["opts"], "calls": c.get("calls") or [],
+                         "real": {k_: v for k_, v in c["run"].items() if k_ != "trace"}, "features": c.get("features")})
         if k == "panic":
             ctx.finding("panic", "host panic while executing a generated program: %s" % c["run"].get("errmsg"), {"src": c["src"], "opts": c["opts"]})
         if k == "timeout":
@@ -1253,6 +1260,65 @@ def poke(k):
     return log
 trace(poke(1))
 """, [("fact", [("int", "6")]), ("peek", [("int", "2")]), ("poke", [("int", "3")])]),
+    ("none-true-false-are-ordinary-identifiers", ALLOFF, """
+def f(None, True):
+    trace(None, True)
+    False = [None, True]
+    for None in [3, 4]:
+        True = True + None
+    g = lambda: (None, True, False)
+    return (None, True, False, [None for None in (7, 8)], {True: False for True in [1]}, g())
+trace(f(1, 2), None, True, False)
+def outer(True):
+    def inner():
+        return True
+    return inner()
+trace(outer("captured"))
+""", [("f", [("int", "5"), ("int", "6")])]),
+    ("global-named-like-a-universal-constant", ALLOFF, """
+def r():
+    return (True, None)
+True = "t"
+None = 0
+trace(True, None, r(), not None, True if None else False)
+"""),
+    ("keyword-only-parameter-filled-positionally", ALLOFF, """
+def h(a, *, c):
+    trace("in h", a, c)
+    return (a, c)
+trace(h(1, c=2), h(c=1, a=2))
+trace(h(1, 2))
+"""),
+    ("keyword-only-parameter-with-default-filled-positionally", ALLOFF, """
+def h(a, b=0, *, c=9, d):
+    trace("in h", a, b, c, d)
+    return (a, b, c, d)
+k = lambda x, *, y: (x, y)
+trace(h(1, d=4), h(1, 2, d=4), k(1, y=2))
+trace(h(1, 2, 3, 4))
+""", ),
+    ("keyword-only-lambda-filled-positionally-from-the-host", ALLOFF, """
+def h(a, *, c):
+    trace("in h", a, c)
+    return (a, c)
+""", [("h", [("int", "1"), ("int", "2")])]),
+    ("unpack-too-many-values-releases-its-iterator", ALLOFF, """
+x = [1, 2, 3]
+d = {"a": 1, "b": 2, "c": 3}
+def f():
+    for p, q in [d]:
+        pass
+def g():
+    a, b = x
+trace(len(x))
+g()
+"""),
+    ("unpack-too-many-values-in-for-target-releases-its-iterator", ALLON, """
+x = [[1, 2, 3]]
+y = {"a": 1, "b": 2, "c": 3}
+for a, b in [y]:
+    trace(a, b)
+"""),
     ("load-binds-file-locals", ALLOFF, """
 load("m.star", "a", bb="b")
 def f():
